@@ -203,7 +203,7 @@ fn run_twins(rep: &mut Report, p: &Params, xs: &[In], pow2: f64, arb: f64, d: f6
                                     Kind::Obv => !obv_poisoned,
                                     Kind::Mfi => !r.near_tie && mfi_gaps.iter().all(|g| *g >= 1e-9),
                                     // a window of bit-identical bars stays one under any scaling: CCI is 0 in both units
-                                    Kind::Cci => !r.degenerate || r.exact_neutral,
+                                    Kind::Cci => !r.degenerate || r.identical_window,
                                     _ => true,
                                 };
                                 // an exactly degenerate window (identical inputs) stays degenerate under
